@@ -56,6 +56,23 @@ def make_judge(F):
         return None
     return judge
 
+def d46_matcher(known, case):
+    """D46: a clause bounded below by a local build V+L (>, >=, !=) in one comma set with '==V' / 'V' on the same public version:
+    VersionRange.intersect(Version) answers with the approximation '>=V+L,<next patch of V'"""
+    if known.get("matcher") != "local_lower_bound_meets_its_public_version": return False
+    from poetry.core.constraints.version import Version
+    import re
+    lows, pins = [], []
+    for g in case.get("spec", "").split("||"):
+        for cl in g.split(","):
+            m = re.match(r"\s*(==|!=|>=|<=|>|<|~=|\^|~)?\s*(.+?)\s*$", cl)
+            if not m or m.group(2).endswith(".*"): continue
+            try: v = Version.parse(m.group(2))
+            except Exception: continue  # noqa
+            if v.is_local() and m.group(1) in (">", ">=", "!="): lows.append(v.without_local())
+            if not v.is_local() and m.group(1) in (None, "=="): pins.append(v)
+    return any(a == b for a in lows for b in pins)
+
 def run(tier):
     from poetry.core.constraints.version import Version
     R = common.Run("C04", tier)
@@ -107,7 +124,7 @@ def run(tier):
             if not dom: continue
             got = c.allows(v)
             if got != want:
-                R.fail(dict(spec=s, candidate=v.text), f"constraint {c} admits={got}, reference contains={want}")
+                R.fail(dict(spec=s, candidate=v.text), f"constraint {c} admits={got}, reference contains={want}", d46_matcher)
     # Spec/Specifier.v against the reference, single clauses: any literal for >=, <=, ==, !=; final literals for >, <
     sreq, sidx = [], []
     for _ in range(800 if tier == "quick" else 20000):
